@@ -85,9 +85,16 @@ def do_import(src: Path, sid: str):
     return True
 
 
-def do_run(ids, tier):
+def do_run(ids, tier, jobs=1, results=None):
+    ids = ids or sorted(p.name for p in SEEDED.iterdir() if p.is_dir())
+    if jobs > 1:
+        from concurrent.futures import ThreadPoolExecutor
+
+        with ThreadPoolExecutor(jobs) as ex:
+            rcs = list(ex.map(lambda i: do_run([i], tier, 1, results), ids))
+        return int(any(rcs))
     rc_all = 0
-    for sid in ids or sorted(p.name for p in SEEDED.iterdir() if p.is_dir()):
+    for sid in ids:
         d = SEEDED / sid
         meta = json.loads((d / "meta.json").read_text())
         props = meta.get("check_with") or [meta["property"]]
@@ -110,6 +117,9 @@ def do_run(ids, tier):
                 sig = [l.strip() for l in p.stdout.splitlines() if l.strip().startswith("signature:")]
                 st = "caught" if p.returncode == 1 else "MACHINERY" if p.returncode == 2 else "MISSED"
                 print(f"SEED {sid} {prop} exit={p.returncode} {st} {sig[0] if sig else ''}", flush=True)
+                if results is not None:
+                    results.append((sid, prop, p.returncode, st, sig[0][len("signature: "):] if sig else "",
+                                    meta.get("summary", "")[:160], meta.get("needs", "")[:160]))
                 if p.returncode == 2:
                     print("\n".join(p.stdout.splitlines()[-12:]))
                 rc_all |= p.returncode != 1
@@ -122,8 +132,29 @@ if __name__ == "__main__":
     if sys.argv[1] == "import":
         sys.exit(0 if do_import(Path(sys.argv[2]), sys.argv[3]) else 1)
     tier = "quick"
-    ids = [a for a in sys.argv[2:] if not a.startswith("--")]
-    if "--tier" in sys.argv:
-        tier = sys.argv[sys.argv.index("--tier") + 1]
-        ids = [a for a in ids if a != tier]
-    sys.exit(do_run(ids, tier))
+    args = sys.argv[2:]
+    jobs = 1
+    write = "--write" in args
+    for flag in ("--tier", "--jobs"):
+        if flag in args:
+            i = args.index(flag)
+            val = args[i + 1]
+            del args[i : i + 2]
+            if flag == "--tier":
+                tier = val
+            else:
+                jobs = int(val)
+    ids = [a for a in args if not a.startswith("--")]
+    results: list = []
+    rc = do_run(ids, tier, jobs, results)
+    if write:
+        lines = ["# Independently seeded regressions vs. the checks", "",
+                 "Each seed was written by a sub-agent that saw only the property text and a scratch worktree",
+                 "(`seeded/<id>/patch.diff`, `demo.py`, `meta.json`); `-s*` = first round, `-t*` = second round",
+                 "(asked for changes of a different kind). The check named is run with `VERIF_REPO` aimed at a",
+                 f"scratch copy with the patch applied (tier {tier}).", "",
+                 "| seed | check | exit | first signature reported | what the change does |", "|---|---|---|---|---|"]
+        for sid, prop, rcode, st, sig, summ, _needs in sorted(results):
+            lines.append(f"| {sid} | {prop} | {rcode} ({st}) | `{sig}` | {summ.replace('|', '/')} |")
+        (SEEDED / "RESULTS.md").write_text("\n".join(lines) + "\n")
+    sys.exit(rc)
